@@ -38,7 +38,9 @@ for k in ks:
     rcg, _ = sh("git diff --quiet", cwd="/repo")
     if rcg: print("  /repo dirty; skipping check run"); 
     else:
-        sh("git apply %s/patch.diff" % dst, cwd="/repo")
+        rca, outa = sh("git apply %s/patch.diff" % dst, cwd="/repo")
+        if rca:
+            print("  patch does not apply to /repo (a fix: commit touched the same lines); not kept"); shutil.rmtree(dst); continue
         try:
             rcc, outc = sh("./check %s" % pid, cwd="/verif", timeout=3000)
         finally:
